@@ -482,8 +482,12 @@ func (p c04) oracle(sc *Scenario, ex *c04exec, what string, attempts int, res *R
 			readable = append(readable, n)
 		}
 	}
+	tupleNodes := WalkTuples(g)
 	for k := 0; k < attempts/8 && len(readable) > 0; k++ {
 		n := readable[r.Intn(len(readable))]
+		if len(tupleNodes) > 0 && r.Chance(1, 4) {
+			n = tupleNodes[r.Intn(len(tupleNodes))]
+		}
 		if r.Chance(1, 5) {
 			switch v := n.V.(type) {
 			case *starlark.Dict:
@@ -511,6 +515,17 @@ func (p c04) oracle(sc *Scenario, ex *c04exec, what string, attempts int, res *R
 			continue
 		}
 		ri := r.Intn(len(c04reads))
+		if _, isTuple := n.V.(starlark.Tuple); isTuple && r.Chance(2, 3) {
+			// tuples: the reads that reorder or rebuild a sequence
+			var pick []int
+			for i, e := range c04reads {
+				if strings.Contains(e, "sorted(") || strings.Contains(e, "reversed(") || strings.Contains(e, "max(") || strings.Contains(e, "min(") || strings.HasPrefix(e, "x + x") || strings.HasPrefix(e, "x * 2") {
+					pick = append(pick, i)
+				}
+			}
+			ri = pick[r.Intn(len(pick))]
+			res.Count("probe_reordering_reads_on_tuples", 1)
+		}
 		hc.Th.SetMaxExecutionSteps(hc.Th.ExecutionSteps() + 20000)
 		safeRun(func() { starlark.Call(hc.Th, hg[fmt.Sprintf("read_%d", ri)], starlark.Tuple{n.V}, nil) })
 		hc.Th.Uncancel()
